@@ -1,6 +1,7 @@
 package main
 
 import (
+	"bytes"
 	"encoding/base64"
 	"context"
 	"crypto/ed25519"
@@ -573,8 +574,13 @@ func c15SendJoin(c *mon.Ctx, r *gen.Rand, sc *simScenario, b *simBranch) {
 	user := "@joiner:other.example"
 	for vi, vec := range guardVectors(r, len(names), 6) {
 		membership := "join"
+		escapedLookalike := false
 		if !vec[0] {
-			membership = gen.Pick(r, []string{"leave", "invite", "knock", ""})
+			membership = gen.Pick(r, []string{"leave", "invite", "knock", "", ""})
+			// no membership member at all, but one named "Membership" - on the wire with its first letter written as an
+			// escape, so that no capital letter shows in the text (tenth seeding round, C15-U: a fast path of the exact
+			// decoder for texts "without capitals")
+			escapedLookalike = membership == "" && vi%3 != 2
 		}
 		sk := user
 		if !vec[1] {
@@ -583,6 +589,9 @@ func c15SendJoin(c *mon.Ctx, r *gen.Rand, sc *simScenario, b *simBranch) {
 		content := ref.O()
 		if membership != "" {
 			content.Set("membership", ref.S(membership))
+		}
+		if escapedLookalike {
+			content.Set("Membership", ref.S("join"))
 		}
 		// (the handler looks at join_authorised_via_users_server in every room version: an event naming a user of
 		// another server there is never one the local server should put its signature under)
@@ -628,6 +637,9 @@ func c15SendJoin(c *mon.Ctx, r *gen.Rand, sc *simScenario, b *simBranch) {
 			continue
 		}
 		evJSON := ev.JSON()
+		if escapedLookalike {
+			evJSON = bytes.Replace(evJSON, []byte(`"Membership"`), []byte(`"\u004dembership"`), 1)
+		}
 		junk := r.Chance(0.3)
 		if junk {
 			evJSON = withJunkSignature(r, evJSON, local)
